@@ -77,6 +77,12 @@ theorem cd_inv : CInv cdHeap where
       intro e; cases e
     · cases hc; simp [cLamTop] at hx
     · cases hc
+  lamArgs := by
+    intro l lam hl
+    rcases cd_cells hl with ⟨_, hc⟩ | ⟨_, hc⟩ | ⟨_, hc⟩
+    · cases hc; decide
+    · cases hc; decide
+    · cases hc
   cont := by
     intro p c hc
     rcases cd_cells hc with ⟨_, h⟩ | ⟨_, h⟩ | ⟨_, h⟩ <;> cases h
